@@ -100,9 +100,9 @@ def run_J3(ctx, case):
         q.prove(pc, z3.And(bv(m.xmm[15][0], 64) == 0x80F0000000000000, bv(m.xmm[15][1], 64) == 0x80F0000000000000), '%s: xmm15 = FSCAL mask' % tag)
         q.prove_eq(pc, m.gpr[3], iters, '%s: rbx = iteration count' % tag, 64)
         chk(isinstance(m.gpr[6], Ptr) and m.gpr[6].obj == 'sp' and m.gpr[6].off == 0, 'rsi = scratchpad')
-        chk(isinstance(m.gpr[4], Ptr) and m.gpr[4].obj == 'stack' and m.gpr[4].off == STK - 456, 'rsp = frame base')
+        chk(isinstance(m.gpr[4], Ptr) and m.gpr[4].obj == 'stack' and is_c(m.gpr[4].off) and m.gpr[4].off < STK and m.gpr[4].off % 16 == 0, 'rsp = 16-byte aligned frame base below the return address')
         q.prove_eq(pc, m.mxcsr, mx_entry_csr, '%s: prologue leaves MXCSR alone' % tag, 32)
-        FRAME = STK - 456
+        FRAME = m.gpr[4].off if isinstance(m.gpr[4], Ptr) else STK - 456
         # ---------------- phase 2: one iteration from an arbitrary loop state (4.6.2), then back edge or exit
         R0 = [z3.BitVec('r%d' % i, 64) for i in range(8)]; ma, mx = z3.BitVecs('ma mx', 32); ic = z3.BitVec('ic', 64)
         fk['pc'] += [ic >= 1, ic < (1 << 31)]
@@ -212,7 +212,8 @@ def run_J3(ctx, case):
             for r_, v in saved.items(): q.prove_eq(pc, m.gpr[r_], v, '%s: callee-saved register %d restored' % (tag, r_), 64)
             chk(isinstance(m.gpr[4], Ptr) and m.gpr[4].obj == 'stack' and m.gpr[4].off == STK + 8, 'stack pointer restored')
         for (kd, obj, off, nb) in m.accesses:
-            if obj == 'stack' and is_c(off): chk(FRAME - 16 <= off and off + nb <= STK + 8, 'stack access inside the frame (and at most two return addresses below it): %s at %d' % (kd, off - FRAME))
+            low = min(FRAME, getattr(m, 'min_sp', None) if getattr(m, 'min_sp', None) is not None else FRAME)
+            if obj == 'stack' and is_c(off): chk(low <= off and off + nb <= STK + 8, 'stack access between the lowest stack pointer of the call and the return address: %s at %d' % (kd, off - FRAME))
         extent_checks(q, pc, m.mem, tag)
         for (rip, a, al) in m.align_checks:
             q.prove(pc, (bv(a.off, 64) & (al - 1)) == 0, '%s: 16-byte aligned SSE operand at code offset %d' % (tag, rip))
